@@ -288,6 +288,121 @@ func bodyWindow(k cfg) func(c *drv.Ctx) {
 	}
 }
 
+// ---- purge gate: the persister is parked right before its purge (EventKindPurgerCheck); a file
+// merge is introduced meanwhile (its file is named by no committed snapshot yet), a safe batch is
+// introduced on top, then the purge and the next persist run. Crash images at every effect boundary.
+
+type purgeGateT struct {
+	armed   bool
+	parked  chan int
+	release chan int
+}
+
+var purgeGate *purgeGateT
+
+func init() {
+	scorch.RegistryEventCallbacks["verif-c03-purge-gate"] = func(e scorch.Event) bool {
+		if g := purgeGate; g != nil && g.armed && e.Kind == scorch.EventKindPurgerCheck {
+			g.armed = false
+			vrt.Send(g.parked, 1)
+			vrt.Recv(g.release)
+		}
+		return true
+	}
+}
+
+var purgeWorkload = []lww.Batch{
+	{I("a", 1), I("b", 1), S(1)},
+	{I("a", 2), I("c", 1), S(2)},
+	{I("b", 2), I("d", 1), S(3)},
+	{I("c", 2), D("a"), S(4)},
+}
+
+func bodyPurgeGate(k cfg) func(c *drv.Ctx) {
+	return func(c *drv.Ctx) {
+		ed := &execData{k: k}
+		c.Data = ed
+		dir := c.Dir + "/idx"
+		acked, submitted := 0, 0
+		capture := false
+		seen := map[string]bool{}
+		vrt.Hook = func(label string) {
+			if !capture || !(strings.HasPrefix(label, "fs:") || strings.HasPrefix(label, "pt:")) {
+				return
+			}
+			img := drv.CaptureDir(dir, label)
+			key := img.Hash + fmt.Sprint(acked, submitted)
+			if seen[key] {
+				return
+			}
+			seen[key] = true
+			img.Tag["acked"], img.Tag["submitted"] = acked, submitted
+			ed.images = append(ed.images, img)
+		}
+		defer func() { vrt.Hook = nil }()
+		g := &purgeGateT{parked: make(chan int, 1), release: make(chan int, 1)}
+		purgeGate = g
+		defer func() { purgeGate = nil }()
+		var idx bleve.Index
+		cf := bx.CopyConfig(k.conf)
+		if cf == nil {
+			cf = map[string]interface{}{}
+		}
+		cf["eventCallbackName"] = "verif-c03-purge-gate"
+		vrt.Free(func() {
+			var err error
+			idx, err = bleve.NewUsing(dir, bleve.NewIndexMapping(), scorch.Name, scorch.Name, cf)
+			if err != nil {
+				panic(err)
+			}
+			vrt.WaitIdle()
+		})
+		do := func(j int) {
+			submitted = j
+			if err := lww.ExecBatch(idx, purgeWorkload[j-1]); err != nil {
+				c.Fail("error:batch", "Batch %d: %v", j, err)
+				return
+			}
+			if j > acked {
+				acked = j
+			}
+		}
+		capture = true
+		do(1)
+		do(2)
+		vrt.WaitIdle()
+		g.armed = true
+		do(3)
+		vrt.Recv(g.parked) // persister parked before its purge
+		vrt.WaitIdle()     // merge introduced, not persisted
+		vrt.Point("pt:merge-introduced-persister-parked")
+		var wg vrt.WaitGroup
+		wg.Add(1)
+		vrt.Go(func() {
+			defer wg.Done()
+			do(4)
+		})
+		vrt.WaitIdle() // batch 4 introduced (its call is waiting for persistence)
+		vrt.Send(g.release, 1)
+		wg.Wait()
+		vrt.Point("pt:batch-4-acknowledged")
+		vrt.WaitIdle()
+		vrt.Point("fs:quiescent")
+		capture = false
+		c.Observe(fmt.Sprintf("images=%d", bucket(len(ed.images))))
+		vrt.Free(func() {
+			if err := idx.Close(); err != nil {
+				c.Fail("error:close", "Close: %v", err)
+			}
+		})
+		if !c.Failed() {
+			img := drv.CaptureDir(dir, "after-clean-Close")
+			img.Tag["acked"], img.Tag["submitted"] = submitted, submitted
+			ed.images = append(ed.images, img)
+		}
+	}
+}
+
 func bucket(n int) int {
 	b := 1
 	for b < n {
@@ -551,6 +666,7 @@ func Scenarios() []drv.Scenario {
 		mk(cfg{name: "safe-aggressive-merge-3", conf: aggressive, nBatch: 3, window: "workload"}, d1r, nil),
 		mk(cfg{name: "unsafe-2-persister-workers-3", conf: unsafe2, unsafe: true, nBatch: 3, window: "workload"}, d1r, nil),
 		{Name: "unsafe-inmemory-merge-window", Body: bodyWindow(cfg{name: "unsafe-inmemory-merge-window", conf: unsafe2, unsafe: true, wl: windowWorkload}), After: after, Quick: d1r, Thorough: d2r, Class: "unsafe"},
+		{Name: "safe-batch-between-merge-and-purge", Body: bodyPurgeGate(cfg{name: "safe-batch-between-merge-and-purge", conf: aggressive, wl: purgeWorkload}), After: after, Quick: d0, Thorough: d1r, Class: "safe"},
 		mk(cfg{name: "safe-default", nBatch: 5, window: "workload"}, d0, d2r),
 		mk(cfg{name: "safe-aggressive-merge", conf: aggressive, nBatch: 5, window: "workload"}, d0, d2r),
 		mk(cfg{name: "unsafe-2-persister-workers", conf: unsafe2, unsafe: true, nBatch: 5, window: "workload"}, d0, d2r),
